@@ -59,13 +59,18 @@ UNIT3 = [("psd_tools.psd.effects_layer", "CommonStateInfo", ("read", "write")),
          ("psd_tools.psd.effects_layer", "BevelInfo", ("read", "write")),
          ("psd_tools.psd.effects_layer", "SolidFillInfo", ("read", "write")),
          ("psd_tools.psd.effects_layer", "EffectsLayer", ("read", "write"))]
-UNITS = {"unit1": UNIT1, "unit2": UNIT2, "unit3": UNIT3}
+UNIT4 = [("psd_tools.psd.patterns", "Patterns", ("read", "write")),
+         ("psd_tools.psd.patterns", "Pattern", ("read", "write")),
+         ("psd_tools.psd.patterns", "VirtualMemoryArrayList", ("read", "write", "_write_body")),
+         ("psd_tools.psd.patterns", "VirtualMemoryArray", ("read", "write", "_write_body"))]
+UNITS = {"unit1": UNIT1, "unit2": UNIT2, "unit3": UNIT3, "unit4": UNIT4}
 # classes a registry row is emitted for (tagged_blocks.TYPES: key -> class name)
 REGISTRY_CLASSES = {"unit2": ["EmptyElement", "IntegerElement", "ShortIntegerElement", "ByteElement", "StringElement", "Bytes",
                               "ProtectedSetting", "SheetColorSetting", "ReferencePoint", "SectionDividerSetting", "UserMask",
                               "FilterMask", "ChannelBlendingRestrictionsSetting", "MetadataSettings", "PixelSourceData2",
                               "Annotations"],
-                    "unit3": ["EffectsLayer"]}
+                    "unit3": ["EffectsLayer"],
+                    "unit4": ["Patterns"]}
 
 
 def _s(x: str) -> str:
@@ -348,6 +353,22 @@ def gen_payload(ctx):
         f"/-- members of `constants.EffectOSType`, sorted -/\ndef effectKeys : List (List UInt8) := {bl(t3['effectKeys'])}\n"
         "/-- the tests of the `if` statements of read / write of the effect infos with a version-dependent trailer -/\n"
         f"def effectConditions : List (String × String × String) := {rows4(t3['effectConditions'])}\n")
+    # ---- unit 4
+    try:
+        C = importlib.import_module("psd_tools.constants")
+        indexed = int(C.ColorMode.INDEXED)
+    except Exception:  # noqa
+        notes.append("constants.ColorMode.INDEXED not found: generated as the sentinel 4294967295")
+        indexed = 4294967295
+    conds4 = []
+    for cn, mn in (("Pattern", "read"), ("Pattern", "write"), ("VirtualMemoryArray", "read"), ("VirtualMemoryArray", "write")):
+        try:
+            conds4.append((cn, mn, "; ".join(_conditions("psd_tools.psd.patterns", cn, mn, notes))))
+        except Exception:  # noqa
+            conds4.append((cn, mn, "<missing>"))
+    parts.append(f"/-- `ColorMode.INDEXED` -/\ndef colorModeIndexed : Nat := {indexed}\n"
+                 "/-- the tests of the `if` statements of read / write of Pattern and VirtualMemoryArray -/\n"
+                 f"def patternConditions : List (String × String × String) := {rows4(conds4)}\n")
     for unit, names in REGISTRY_CLASSES.items():
         try:
             rows = registry_rows(names, notes)
